@@ -155,7 +155,7 @@ func (s *rangeProofStructure) verifyProofStructure(proof RangeProof) bool {
 	// Validate size of secret results
 	rangeLimit := new(big.Int).Lsh(big.NewInt(1), s.l2+rangeProofEpsilon+2)
 	for _, val := range proof.Results[s.rangeSecret] {
-		if val.Cmp(rangeLimit) >= 0 {
+		if val.Sign() < 0 || val.Cmp(rangeLimit) >= 0 {
 			return false
 		}
 	}
